@@ -613,6 +613,8 @@ def run(chk):
     chk.guard(c01.rule_r4, chk, rid="C03-R9")
     from .. import unused as _unused
     chk.guard(_unused.apply, chk, "C03-R91")
+    from .. import slatables as _slatables
+    chk.guard(_slatables.apply, chk, "C03-R13", (("irispie.simultaneous._slatable_protocols", "_slatable_for_simulate_or_kalman_filter"),))
     from .. import basis as _basis
     chk.guard(_basis.apply, chk, "C03-R12")
     from .. import args as _args
